@@ -223,7 +223,9 @@ func frameString(b []byte) string {
 			var parts []string
 			for _, e := range es {
 				if len(e.Message) > 1 && (e.Message[0] == 'E' || e.Message[0] == 'P') {
-					parts = append(parts, e.Message)
+					if _, err := strconv.Atoi(e.Message[1:]); err == nil {
+						parts = append(parts, e.Message)
+					}
 				}
 			}
 			if len(parts) > 0 {
@@ -395,6 +397,7 @@ func runScript(line string, q time.Duration) string {
 			gone = true
 			_ = c.WriteControl(websocket.CloseMessage, websocket.FormatCloseMessage(websocket.CloseNormalClosure, ""), time.Now().Add(time.Second))
 		case "r":
+			rec = strings.Join(p[:3], ":") // a re-run is fed the recorded form (with :d / :s)
 			tag, _ := strconv.Atoi(p[2])
 			s.mu.Lock()
 			in := s.insts[tag]
